@@ -195,7 +195,7 @@ def _run_case(case, rec, mon=None):
         dt = [np.float64, np.float64, np.float32, np.float16, np.longdouble][int(rng.integers(5))]
         if dt == np.float16 and kind == "noise_big":
             kind = "noise"
-        x = gen.signal(rng, int(N), kind, dt)
+        x = gen.signal(rng, int(N), kind, dt, views=True)
         x.setflags(write=False)
         try:
             comp.compute_full(x)
